@@ -36,6 +36,9 @@ class VDI(AlignedStream):
         super().__init__(size=self.header.DiskSize)
 
     def _read(self, offset: int, length: int) -> bytes:
+        # The aligned stream may request more than what's left of the disk, so clamp to the disk size
+        length = min(length, self.size - offset)
+
         bytes_read = []
         while length > 0:
             # Never read across a block boundary, consecutive blocks are not necessarily contiguous in the file
